@@ -19,7 +19,7 @@
 From Coq Require Import String.
 From Coq Require Import List Ascii ZArith Bool.
 From Coq Require Import Floats.PrimFloat.
-From CGV Require Import Base.PyBase Base.PyVal Base.NxGraph Gen.HydroGen Hydro.Hydrogens Hydro.HydroDefs Hydro.Fragments.
+From CGV Require Import Base.PyBase Base.PyVal Base.NxGraph Gen.HydroGen Hydro.Hydrogens Hydro.HydroDefs Hydro.Fragments Hydro.Aromatic.
 Import ListNotations.
 Open Scope Z_scope.
 
@@ -167,7 +167,9 @@ Inductive extra :=
 | XRemoveH (g : graph) (r : option obs_graph)
 | XFragment (g0 : graph) (name : pystr) (bonding : list (Z * pyval)) (ez : list (Z * pyval))
             (attributes : list (Z * attrs)) (r : option obs_graph)
-| XMass (g : graph) (car : option graph) (r : option float).
+| XMass (g : graph) (car : option graph) (r : option float)
+(** a direct call of pysmiles' correct_aromatic_rings(g, strict) with the two recorded enumeration answers *)
+| XCar (strict : bool) (g : graph) (M : list (Z * Z)) (L : list (list Z * bool)) (r : option obs_graph).
 
 Fixpoint zlist_eqb (a b : list Z) : bool :=
   match a, b with [], [] => true | x :: a', y :: b' => Z.eqb x y && zlist_eqb a' b' | _, _ => false end.
@@ -190,6 +192,7 @@ Definition extra_ok (x : extra) : bool :=
                      | Err _, None => true
                      | _, _ => false
                      end
+  | XCar strict g M L r => graph_res_ok (car_model strict g M L) r
   end.
 
 (** ------------------------------------------------------------ cases *)
@@ -200,7 +203,11 @@ Definition extra_ok (x : extra) : bool :=
     c_skip: the input never reached rebuild_h_atoms. *)
 Record case := { c_skip : bool; c_before : graph; c_car : option graph;
                  c_after : option obs_graph; c_final : option obs_graph; c_extra : list extra;
-                 c_nocorr : bool; c_coarse : list (Z * pystr) }.
+                 c_nocorr : bool; c_coarse : list (Z * pystr);
+                 c_match : list (Z * Z); c_rings : list (list Z * bool) }.
+(** c_match / c_rings: the two answers of networkx' enumeration inside correct_aromatic_rings that the model
+    Hydro.Aromatic takes as transcripts (the kekulisation matching; the rings dekekulize marked, with the flag
+    `estimated`).  From them the model COMPUTES the state after the aromaticity step; it must equal c_car. *)
 (** c_coarse: the coarse graph returned with c_final, node key -> fragname ([] when the run has none: sampler) *)
 (** c_nocorr: the implementation called rebuild_h_atoms in a way the model does not cover (arguments other
     than the defaults, or without calling correct_aromatic_rings): the model is not compared on this case,
@@ -212,10 +219,18 @@ Record case := { c_skip : bool; c_before : graph; c_car : option graph;
 Definition transcript_ok (c : case) : bool :=
   match c_car c with Some g1 => transcript_contract (c_before c) g1 && arom_contractb g1 | None => true end.
 
+(** the modelled aromaticity step reproduces the recorded state (same exception when it raised) *)
+Definition car_agrees (c : case) : bool :=
+  match car_model rebuild_strict (c_before c) (c_match c) (c_rings c), c_car c with
+  | Ok g, Some g1 => obs_eqb (observe g) (observe g1)
+  | Err _, None => true
+  | _, _ => false
+  end.
+
 Definition corr_ok (c : case) : bool :=
   forallb extra_ok (c_extra c) &&
   (if c_skip c || c_nocorr c then true else
-   transcript_ok c &&
+   transcript_ok c && car_agrees c &&
    match rebuild_h_atoms_default (c_before c) (c_car c), c_after c with
    | Ok g, Some o => obs_eqb (observe g) o
    | Err _, None => true
